@@ -948,7 +948,7 @@ def build_fncall(
         for binding, doc in kwargdocs
     ]
 
-    if not (argdocs or kwargdocs):
+    if not (argdocs or kwargdocs or trailing_comment):
         return concat([
             fndoc,
             LPAREN,
@@ -1245,6 +1245,22 @@ def pretty_bracketable_iterable(value, ctx, trailing_comment=None):
             dangle = True
     elif isinstance(value, set):
         left, right = LBRACE, RBRACE
+
+    if not value and trailing_comment:
+        # Nothing but the comment to show.
+        if is_native_type and isinstance(value, (list, tuple)):
+            return sequence_of_docs(
+                ctx,
+                left,
+                [commentdoc(trailing_comment)],
+                right,
+                force_break=True
+            )
+        return build_fncall(
+            ctx,
+            general_identifier(constructor),
+            trailing_comment=trailing_comment
+        )
 
     if not value:
         if isinstance(value, (list, tuple)):
